@@ -49,14 +49,14 @@ def run(ctx):
     ctx.preload(cfgs)
     for cfg in cfgs:
         fs = ctx.facts(cfg)
-        exit_table(ctx, cfg, fs)
-        stream_table(ctx, cfg, fs)
-        run_flow(ctx, cfg, fs)
-        argv0(ctx, cfg, fs)
-        who(ctx, cfg, fs)
-        nonempty(ctx, cfg, fs)
+        ctx.guard(exit_table, ctx, cfg, fs)
+        ctx.guard(stream_table, ctx, cfg, fs)
+        ctx.guard(run_flow, ctx, cfg, fs)
+        ctx.guard(argv0, ctx, cfg, fs)
+        ctx.guard(who, ctx, cfg, fs)
+        ctx.guard(nonempty, ctx, cfg, fs)
         import c10
-        c10.usage_fallback(ctx, cfg, fs.one(r'^info::OptionParser::<T>::run_subparser$'), 'U.usage-fallback')
+        ctx.guard(c10.usage_fallback, ctx, cfg, fs.one(r'^info::OptionParser::<T>::run_subparser$'), 'U.usage-fallback')
 
 def exit_table(ctx, cfg, fs):
     b = ctx.look(fs.one(r'^error::ParseFailure::exit_code$'))
